@@ -447,7 +447,18 @@ pub fn field_fault(img: &mut Img, kind: usize) -> &'static str {
         4 => img.meta_len = [0u16, 1, img.meta_len.wrapping_add(1), img.meta_len.wrapping_sub(1), 0xffff][tape::f("edit.u16", 5) as usize],
         5 => flip_in(&mut img.meta),
         6 => img.modulus_len = interesting_u8(img.modulus_len),
-        7 => flip_in(&mut img.modulus),
+        7 => match tape::f("edit.modulus_kind", 4) {
+            // an all-zero modulus (zero significant bits), a modulus of 1 or 2 (one or two bits):
+            // the values the security estimate is computed from are attacker-chosen
+            0 => img.modulus.iter_mut().for_each(|b| *b = 0),
+            1 => {
+                img.modulus.iter_mut().for_each(|b| *b = 0);
+                if let Some(b) = img.modulus.first_mut() {
+                    *b = 1 + tape::f("edit.modulus_small", 3) as u8;
+                }
+            },
+            _ => flip_in(&mut img.modulus),
+        },
         8..=13 => {
             let i = kind - 8;
             img.opts[i] = interesting_u8(img.opts[i]);
